@@ -34,6 +34,7 @@ def run(idx: ProgramIndex, rep: Report, tier: str):
     noise_keyword(idx, rep)
     sibling_forwarding(idx, rep)
     multitask_global_noise(idx, rep)
+    noise_first(idx, rep)
     list_routing(idx, rep, "LikelihoodList", "likelihoods", "C12-3", 5)
 
 
@@ -305,6 +306,71 @@ def multitask_global_noise(idx: ProgramIndex, rep: Report):
     mg = idx.method(L, "marginal", own=True)
     ok = any(chain(c.func) == "self._shaped_noise_covar" and any(k.arg == "add_noise" and src(k.value) == "self.has_global_noise" for k in c.keywords) for c in calls_in(mg.node))
     rep.add("C12-1", "%s:_MultitaskGaussianLikelihoodBase.marginal[add_noise]" % L.module.name, mg.where, ok, "the marginal requests the global noise exactly when the likelihood has one" if ok else "marginal no longer passes add_noise=self.has_global_noise", {})
+
+
+def noise_first(idx: ProgramIndex, rep: Report):
+    """A noise model that honours the call-time `noise` must decide on it before anything else: every returning path either
+    returns a value built from the passed noise or has tested that no noise was passed."""
+    noise_base = idx.find_class("Noise")
+    classes = [c for c in idx.subclasses(noise_base)] + [idx.find_class("FixedGaussianNoise")]
+    n = 0
+    for cls in classes:
+        fw = cls.methods.get("forward")
+        if fw is None or not honours_noise(idx, cls):
+            continue
+        n += 1
+        a = fw.node.args
+        has_param = any(x.arg == "noise" for x in a.args + a.kwonlyargs)
+        kw = a.kwarg.arg if a.kwarg else None
+
+        def mentions_noise(e):
+            for x in ast.walk(e):
+                if has_param and isinstance(x, ast.Name) and x.id == "noise":
+                    return True
+                if isinstance(x, ast.Constant) and x.value == "noise":
+                    return True
+            return False
+
+        probs = []
+        npaths = 0
+        for p in enumerate_paths(body_without_docstring(fw.node)):
+            if p.outcome != RETURN:
+                continue
+            npaths += 1
+            tested_absent = False
+            passed_noise_locals = set()
+            ret = None
+            def atoms(test, truth):
+                """(atom, truth) pairs implied by assuming test == truth"""
+                if isinstance(test, ast.BoolOp):
+                    if (isinstance(test.op, ast.And) and truth) or (isinstance(test.op, ast.Or) and not truth):
+                        for v in test.values:
+                            yield from atoms(v, truth)
+                    return
+                if isinstance(test, ast.UnaryOp) and isinstance(test.op, ast.Not):
+                    yield from atoms(test.operand, not truth)
+                    return
+                yield test, truth
+
+            for s in p.steps:
+                if s.kind == "assume":
+                    for atom, tr in atoms(s.node, s.truth):
+                        if not mentions_noise(atom):
+                            continue
+                        t = src(atom)
+                        present_when_true = ("is not None" in t) or (" in " in t and "not in" not in t)
+                        if (present_when_true and tr is False) or (not present_when_true and tr is True):
+                            tested_absent = True
+                if s.kind == "stmt" and isinstance(s.node, ast.Return):
+                    ret = s.node.value
+            if ret is None:
+                continue
+            if mentions_noise(ret) or tested_absent:
+                continue
+            probs.append("a path returns `%s` without having looked at the call-time noise: a noise passed by the caller is ignored there" % src(ret)[:50])
+        rep.add("C12-2", "%s:%s.forward[call-time noise first]" % (cls.module.name, cls.qualname), fw.where, not probs and npaths > 0,
+                "on all %d returning paths the call-time noise is either used or was tested to be absent" % npaths if not probs else "; ".join(sorted(set(probs))), {"paths": npaths})
+    rep.floor("C12-2", "noise models honouring call-time noise", n, 3)
 
 
 # ---- C12-3 (shared with C08-3) -------------------------------------------------------------------------------------
